@@ -22,11 +22,11 @@ RULE = ("Cases are expression strings: grammar-generated (identifiers from the g
         "and ~30 non-whitelisted builtins/dunders; member chains over public, _private, __mangled, __dunder__ names and Unicode look-alikes of them (fullwidth low line, fullwidth letters); "
         "calls, indexing, list literals, all operators; string literals that are format templates such as '{0._x}', "
         "'{a.__class__}', '%(k)s'; dedicated productions <template>.format(<sentinel>), str.format(<template>, ..), "
-        "<template>.format_map(dict([[k, <sentinel>]])), <template> % <sentinel>, map(str.format, ..)) and byte-level "
+        "<template>.format_map(dict([[k, <sentinel>]])), <template> % <sentinel>, map(str.format, ..); whitelisted callables given an iterable of environment objects and a string naming a member path such as 'child._x') and byte-level "
         "mutants of them (insert/delete/swap/replace characters). Environments: tripwire sentinels whose "
         "__getattribute__ records every read and whose planted private attributes hold secret markers (secrets live in "
         "attributes only, never in items or repr), and real graphtage nodes / to_obj() values with a planted private "
-        "attribute, as MatchIf / MatchUnless supply them. Oracle: (R1) no read of a planted private name or __dict__ on "
+        "attribute, as MatchIf / MatchUnless supply them. One expression in three is first evaluated once with a wider globals= mapping (getattr, vars, dir, type, ... exposed by that caller; reads during that evaluation are not judged) and then judged under the default whitelist on the same parsed Expression object. Oracle: (R1) no read of a planted private name or __dict__ on "
         "any sentinel or node; (R2) no secret marker in the result, its repr or the exception text; (R3) the result "
         "contains no sentinel class, module, frame, code object or dunder-named bound method; (R4, exhaustive) every "
         "name in dir(builtins) and the module's globals outside the 35 documented names raises KeyError, every "
@@ -42,7 +42,7 @@ MANIFEST_TEXT = ("Program generation against tripwired environments: any route b
                  "object kind); name resolution is checked exhaustively over builtins. Sampled over expression space.")
 MANIFEST_NOTE = "Trusts the sentinel's __getattribute__ tripwire and the secret-marker scan of results and exception texts."
 DESIGN_REF = 'DESIGN.md section 3, C19'
-SHRINK = {'strings': ['expr']}
+SHRINK = {'strings': ['expr'], 'enums': {'wider_first': False}}
 SHRINK_BUDGET = {'quick': 400, 'thorough': 2000}
 
 SECRET = 'S3CR3T-7f3a'
@@ -111,6 +111,9 @@ BADN = ['getattr', 'eval', 'exec', 'open', 'type', 'vars', 'dir', 'globals', 'lo
 TEMPLATES = ["'{0._x}'", "'{0.__dict__}'", "'{0.child._x}'", "'{a._x}'", "'{0[_x]}'", "'%s'", "'%(k)s'", "'{0.__class__}'",
              "'{0!r}'", "'_x'", "'k'", "'{}'", "'{0._vf_secret}'", "'{0.__hidden}'", "'{0.__class__.__init__.__globals__}'",
              "'{a.__priv__}'", "'{0.child.child._Sentinel__m}'", "'{0.pub}'", "'{0.name}'"]
+# names a more permissive caller might expose through globals= (side-effect free ones only)
+WIDER = {n: getattr(builtins, n) for n in ('getattr', 'vars', 'dir', 'type', 'repr', 'isinstance', 'hasattr', 'callable', 'reversed',
+                                            'range', 'next', 'format')}
 SENT = ['obj', 'from', 'obj.child', 'to["k"]', 'to["a"]', 'from.child.child', 'node', 'nobj', 'xobj', 'node.parent']
 
 
@@ -150,6 +153,34 @@ def grammar():
         st.builds(lambda a, b: f"({a}, {b})[0]", pubval, privlit),
     )
 
+    # whitelisted callables given an iterable of environment objects plus a *string naming a member path* (key functions and
+    # the like are spelled this way in many libraries): no argument convention may turn such a string into attribute reads
+    paths = st.sampled_from(["'child._x'", "'_x'", "'pub._x'", "'child.child._Sentinel__m'", "'child.__dict__'", "'parent._vf_secret'",
+                             "'name.__class__'", "'data._x'", "'child.__hidden'", "'_vf_secret'", "'pub'", "'child.pub'"])
+    iters = st.sampled_from(['[obj, from]', '[obj.child, obj]', 'node.children()', '[node, node.parent]', 'to.values()', '[xobj]',
+                             '(obj, from.child)', '[to["k"], to["a"]]'])
+    fn = st.one_of(st.sampled_from(['sorted', 'min', 'max', 'map', 'filter', 'sum', 'any', 'all', 'list', 'set', 'dict', 'zip', 'enumerate']),
+                   st.sampled_from(DOCUMENTED))
+    # functions outside the whitelist applied to environment objects the way an attacker would: they must not resolve
+    priv = st.sampled_from(["'_x'", "'__dict__'", "'_vf_secret'", "'__hidden'", "'_Sentinel__m'", "'__priv__'"])
+    badcall = st.one_of(
+        st.builds(lambda x, p: f"getattr({x}, {p})", sent, priv),
+        st.builds(lambda x, p: f"vars({x})[{p}]", sent, priv),
+        st.builds(lambda x: f"vars({x})", sent),
+        st.builds(lambda x, p: f"{p} in dir({x})", sent, priv),
+        st.builds(lambda x, p: f"getattr({x}, {p}, 0)", sent, priv),
+        st.builds(lambda x, p: f"hasattr({x}, {p})", sent, priv),
+        st.builds(lambda x, p: f"type({x}).__getattribute__({x}, {p})", sent, priv),
+        st.builds(lambda x, p: f"format({x}, {p})", sent, priv),
+    )
+    pathcall = st.one_of(
+        badcall,
+        st.builds(lambda f, it, p: f"{f}({it}, {p})", fn, iters, paths),
+        st.builds(lambda f, it, p, x: f"{f}({it}, {p}, {x})", fn, iters, paths, st.sampled_from(['True', '0', "'k'", 'obj'])),
+        st.builds(lambda f, it, p: f"{f}({p}, {it})", fn, iters, paths),
+        st.builds(lambda f, it, p: f"list({f}({p}, {it}))", st.sampled_from(['map', 'filter', 'zip', 'enumerate']), iters, paths),
+    )
+
     def member(e):
         # also odd spellings of the member name: parenthesised, spaced, bracketed
         return st.builds(lambda x, n, form: form.format(x=x, n=n), e, st.sampled_from(PRIV + PUB + LOOKALIKE),
@@ -172,7 +203,7 @@ def grammar():
     def paren(e):
         return e.map(lambda x: f"({x})")
 
-    return st.recursive(st.one_of(ident, lit, sent, fmt, fmt, benign, pubval),
+    return st.recursive(st.one_of(ident, lit, sent, fmt, fmt, benign, pubval, pathcall),
                         lambda e: st.one_of(member(e), member(e), call(e), call(e), index(e), lst(e), binop(e), paren(e)),
                         max_leaves=8)
 
@@ -222,7 +253,12 @@ def run_job(job, seed, sink):
     if job['kind'] == 'atheris':
         return run_atheris(job, seed, sink)
     strat = grammar() if job['kind'] == 'grammar' else mutated()
-    hyp_drive(strat.map(lambda s: {'expr': s}), job['n'], seed, sink)
+    n = [0]
+
+    def mk(s):
+        n[0] += 1
+        return {'expr': s, 'wider_first': True} if n[0] % 3 == 0 else {'expr': s}
+    hyp_drive(strat.map(mk), job['n'], seed, sink)
 
 
 def run_atheris(job, seed, sink):
@@ -379,6 +415,18 @@ def check(case):
     except BaseException as ex:       # noqa: B902 - any parse failure is a clean rejection
         parsed = False
         err = ex
+    if parsed and case.get('wider_first'):
+        # the same parsed expression is first evaluated by a caller who chose to expose more names; whatever that caller allowed,
+        # a later evaluation under the default whitelist must not inherit it
+        out.label('after-eval-with-wider-globals')
+        try:
+            e.eval(locals=make_env(), globals={**expressions.DEFAULT_GLOBALS, **WIDER})
+        except RecursionError:
+            pass
+        except BaseException:     # noqa: B902
+            pass
+        del READS[:]
+        TOUCHED[0] = 0
     if parsed:
         try:
             res = e.eval(locals=env)
